@@ -191,6 +191,8 @@ def soft_sign_tabulated(repo: Repo, ci: ClassInfo, fi: FuncInfo):
 
     mc = ci.module.classes.get(ci.name.replace("Demodulator", "Modulator"))
     cc = mc.find_method("_create_constellation") if mc is not None else None
+    if cc is None and mc is not None and mc.find_method("_create_constellations") is not None and ci.name == "Pi4QPSKDemodulator":
+        return done(*pi4_soft_tabulated(repo, ci, fi, mc))
     if cc is None:
         return done(None, "no paired modulator with a table constructor")
     funcs_m = {nm: f_.node for nm, f_ in ci.module.functions.items()}
@@ -236,6 +238,65 @@ def soft_sign_tabulated(repo: Repo, ci: ClassInfo, fi: FuncInfo):
                         return done(VIOLATION, f"order {M_}, gray_coding={gray}: at the constellation point {pts[i]} (label {[int(x) for x in bp[i]]}) the LLR of bit {j} is {llr!r}; the transmitted bit is {int(bp[i][j])}, so it must be {'positive' if want0 else 'negative'} (positive <=> bit 0)")
                     count += 1
     return done(OK, f"tabulated at every constellation point for orders {orders} and both labelings ({count} LLRs): positive <=> the point's label bit is 0")
+
+
+def pi4_soft_tabulated(repo: Repo, ci: ClassInfo, fi: FuncInfo, mc: ClassInfo):
+    """pi/4-QPSK: the two point tables come from evaluating the modulator's table constructor (both labelings); the soft
+    branch of the demodulator's forward (class helpers followed) is evaluated, noise-free, on symbol sequences that
+    alternate standard / rotated points starting with the standard table in every row (evaluation mode, fresh state): one
+    sequence of 5 symbols, a batch with an odd and one with an even number of symbols per row.  The LLR of bit j of
+    symbol t must be positive iff label bit j of the transmitted point is 0."""
+    from ..constfold import PySeq, Unfoldable
+    from ..frag import FragRaise, FragReturn, run_fragment
+    from .c14 import fold_buffers
+
+    funcs_d = {nm: f_.node for nm, f_ in ci.module.functions.items()}
+    funcs_d.update({f"self.{nm}": f_.node for nm, f_ in ci.methods.items() if nm not in ("forward", "__init__")})
+    count = 0
+    for gray in (True, False):
+        try:
+            bufs = fold_buffers(mc, "_create_constellations", {"self.gray_coded": gray}, {"self.gray_coded": gray})
+        except Exception as exc:  # noqa: BLE001 - any failure of the table evaluation means "not evaluable"
+            return None, f"modulator tables not evaluable ({exc})"
+        q, qr, bp = bufs.get("qpsk"), bufs.get("qpsk_rotated"), bufs.get("bit_patterns")
+        if not (isinstance(q, list) and isinstance(qr, list) and len(q) == len(qr) == 4 and isinstance(bp, list) and len(bp) == 4 and all(isinstance(r_, list) and len(r_) == 2 for r_ in bp)):
+            return None, "modulator tables have an unexpected form"
+        q, qr = [complex(z) for z in q], [complex(z) for z in qr]
+        layouts = [[0, 1, 2, 3, 1], [[0, 1, 2], [3, 2, 1], [1, 1, 0]], [[2, 0, 3, 1], [1, 3, 0, 2]]]
+        for labs in layouts:
+            batched = isinstance(labs[0], list)
+            rows = labs if batched else [labs]
+            y_rows = [[(qr if t % 2 else q)[l_] for t, l_ in enumerate(r_)] for r_ in rows]
+            attrs = {"self.modulator.qpsk": q, "self.modulator.qpsk_rotated": qr, "self.modulator.bit_patterns": [[float(b_) for b_ in r_] for r_ in bp], "self.modulator.constellation": q, "self._use_rotated": False, "self.training": False, "self.soft_output": True, "self._bits_per_symbol": 2, "self.bits_per_symbol": 2, "self.gray_coded": gray}
+            try:
+                run_fragment(fi.body, {"y": y_rows if batched else y_rows[0], "noise_var": 0.5, "args": PySeq([]), "kwargs": {}}, attrs, funcs=funcs_d, materialise=True, max_steps=4000000, attrs_live=True)
+                return None, "no value returned"
+            except FragReturn as ret:
+                out = ret.value
+            except (Unfoldable, FragRaise, TypeError, ValueError, IndexError, ZeroDivisionError) as exc:
+                return None, f"soft branch not evaluable ({exc})"
+            flat = []
+
+            def fl(z):
+                if isinstance(z, list):
+                    for e_ in z:
+                        fl(e_)
+                else:
+                    flat.append(z)
+
+            fl(out)
+            T = len(rows[0])
+            if len(flat) != len(rows) * T * 2 or not all(isinstance(x, (int, float)) and not isinstance(x, bool) for x in flat):
+                return None, f"soft output is not {len(rows) * T * 2} real numbers"
+            for ri, r_ in enumerate(rows):
+                for t, l_ in enumerate(r_):
+                    for j in range(2):
+                        llr = flat[(ri * T + t) * 2 + j]
+                        want0 = int(bp[l_][j]) == 0
+                        if not (llr == llr) or llr == 0 or (llr > 0) != want0:
+                            return VIOLATION, f"gray_coded={gray}, {'batch of ' + str(len(rows)) + ' rows with ' + str(T) + ' symbols each' if batched else 'sequence of ' + str(T) + ' symbols'}: row {ri}, symbol {t} is the {'rotated' if t % 2 else 'standard'} point with label {[int(x) for x in bp[l_]]}; the LLR of bit {j} is {llr!r}, it must be {'positive' if want0 else 'negative'} (positive <=> bit 0; every row starts with the standard table and alternates)"
+                        count += 1
+    return OK, f"pi/4-QPSK soft branch evaluated noise-free on alternating standard / rotated sequences (5 symbols; batches with 3 and 4 symbols per row; both labelings; {count} LLRs): positive <=> the transmitted label bit is 0"
 
 
 def modulator_tables(repo: Repo, ci: ClassInfo, M_: int, gray: bool):
@@ -659,7 +720,7 @@ def tabulate_demodulators(repo: Repo, rep: Report, rule: str, which: str) -> int
         if fi is None or fi.cls is not ci:
             continue
         mc = ci.module.classes.get(ci.name.replace("Demodulator", "Modulator"))
-        if mc is None or (mc.find_method("_create_constellation") is None and ci.name != "QPSKDemodulator"):
+        if mc is None or (mc.find_method("_create_constellation") is None and ci.name != "QPSKDemodulator" and not (ci.name == "Pi4QPSKDemodulator" and which == "soft")):
             continue
         st_, d_ = (hard_nearest_tabulated if which == "hard" else soft_sign_tabulated)(repo, ci, fi)
         if st_ is None:
